@@ -72,8 +72,8 @@ def sec11():
     head = ["## 11. Seeded changes and which checks catch them\n",
             "%d property-breaking changes are kept under `seeded/<name>/` (`patch.diff`, `demo.py`, `meta.json`). Each was written by a\n"
             "fresh sub-agent that saw only the text of one property and its own scratch worktree (`tools/mutation_agent_prompt.txt`;\n"
-            "four rounds; later rounds were told which sites the earlier ones had used and, in round 4, to hide behind rare input\n"
-            "combinations, tolerance margins and era effects), passes the repository's 250 tests, and was confirmed by\n"
+            "five rounds; later rounds were told which sites the earlier ones had used and, from round 4 on, to hide behind rare\n"
+            "input combinations, tolerance margins and era effects), passes the repository's test suite, and was confirmed by\n"
             "hand in a scratch worktree at the current /repo HEAD (`tools/revet_all.sh`: demo exits 1 with the change, 0 without).\n"
             "`tools/matrix.py` applies each in a scratch worktree, runs the owning check (quick, then thorough) against it through\n"
             "`VERIF_REPO`, falls back to the other checks when the owner is silent, and records the clauses whose count rose above the\n"
